@@ -436,4 +436,121 @@ theorem three_ways_same_a64 (c : Pipeline.Cfg) (isa : Txt) (hisa : lower isa = [
   obtain ⟨r1, r2, r3⟩ := three_ways_run c isa a64Cfg (cfgOf_a64 isa hisa) file body alone _ hne s1 s2 s3 hlen
   exact ⟨r1, r2, r3, a₀, g1, g2, hg1, hg2, e1, e2⟩
 
+/-! ### non-vacuity: a concrete kernel with two dependency edges, one loop-carried cycle and noise lines -/
+
+namespace Ex
+def rax : Txt := [114, 97, 120]
+def rbx : Txt := [114, 98, 120]
+def rcx : Txt := [114, 99, 120]
+def addq : Txt := [97, 100, 100, 113]
+/-- `addq %src, %dst` with the data `add_semantics` would store (two ports) -/
+def ins (n : Nat) (src dst : Txt) (lat tp : Rat) (pr : List Rat) : PLine :=
+  { sel := ⟨n, some addq, none, none, [.reg src, .reg dst]⟩,
+    sem := { src := [.reg { name := src }], dst := [.reg { name := dst }], lat := lat, latWoLoad := none,
+             tp := tp, pressure := pr, used := pr.map (fun x => x != 0) } }
+/-- a comment line; whatever stands in `sem` is not looked at -/
+def cmt (n : Nat) : PLine :=
+  { sel := ⟨n, none, some [104, 105], none, []⟩, sem := { lat := 9, tp := 3, pressure := [7, 7] } }
+def lbl (n : Nat) : PLine := { sel := ⟨n, none, none, none, []⟩ }
+def dir (n : Nat) : PLine := { sel := C11.Ex.dir n C11.Ex.p2align [[52]] }
+def cfg : Pipeline.Cfg := { isa := .x86, nports := 2 }
+def cfgF : Pipeline.Cfg := { isa := .x86, nports := 2, flagDeps := true, par := { stlf := 1, pIdx := 2 }, floor := 7 }
+
+/-- rbx → rax → rcx → rbx: edges 3→4 (4 cy), 4→5 (1 cy), and the cycle 3-4-5 closed by 5→3' (2 cy) -/
+def clean : List PLine := [ins 3 rbx rax 4 1 [1, 0], ins 4 rax rcx 1 (1/2) [1/2, 1/2], ins 5 rcx rbx 2 1 [0, 1]]
+/-- the same instructions with comment / label / directive lines around and between them, one
+    number beyond the `floor` 1000 -/
+def noisy : List PLine := [cmt 10, ins 11 rbx rax 4 1 [1, 0], lbl 12, dir 13, ins 14 rax rcx 1 (1/2) [1/2, 1/2],
+  ins 1500 rcx rbx 2 1 [0, 1], cmt 1501]
+
+structure View where
+  rows : List (Nat × Bool × Rat × Rat × List Rat)
+  edges : List (Nat × Bool × Nat × Bool × Rat)
+  cpTotal : Rat
+  cpMarks : List (Nat × Rat)
+  lcd : List (List Nat × List Rat × Rat)
+  lcdDict : List (List Nat × Rat × List (Nat × Rat))
+  lcdFigure : Rat
+  lcdMarks : List (Nat × Rat)
+  colSums : List Rat
+  deriving DecidableEq
+
+def view (a : Analysis) : View :=
+  ⟨a.rows.map (fun r => (r.line, r.instr, r.lat, r.tp, r.pressure)),
+   a.edges.map (fun e => (e.src.line, e.src.load, e.dst.line, e.dst.load, e.w)),
+   a.cpTotal, a.cpMarks, a.lcd.map (fun e => (e.lines, e.lats, e.latency)), a.lcdDict, a.lcdFigure, a.lcdMarks,
+   a.colSums⟩
+
+-- the model evaluated directly: edges, CP 7 over all three, one cycle of latency 7, column sums
+example : view (analyze cfg clean) =
+    ⟨[(3, true, 4, 1, [1, 0]), (4, true, 1, 1/2, [1/2, 1/2]), (5, true, 2, 1, [0, 1])],
+     [(3, false, 4, false, 4), (4, false, 5, false, 1)], 7, [(3, 4), (4, 1), (5, 2)],
+     [([3, 4, 5], [4, 1, 2], 7)], [([3, 4, 5], 7, [(3, 4), (4, 1), (5, 2)])], 7, [(3, 4), (4, 1), (5, 2)],
+     [3/2, 3/2]⟩ := by decide +kernel
+
+-- with the noise lines: zeros on them, everything else the same under 3 ↦ 11, 4 ↦ 14, 5 ↦ 1500
+example : view (analyze cfg noisy) =
+    ⟨[(10, false, 0, 0, [0, 0]), (11, true, 4, 1, [1, 0]), (12, false, 0, 0, [0, 0]), (13, false, 0, 0, [0, 0]),
+      (14, true, 1, 1/2, [1/2, 1/2]), (1500, true, 2, 1, [0, 1]), (1501, false, 0, 0, [0, 0])],
+     [(11, false, 14, false, 4), (14, false, 1500, false, 1)], 7, [(11, 4), (14, 1), (1500, 2)],
+     [([11, 14, 1500], [4, 1, 2], 7)], [([11, 14, 1500], 7, [(11, 4), (14, 1), (1500, 2)])], 7,
+     [(11, 4), (14, 1), (1500, 2)], [3/2, 3/2]⟩ := by decide +kernel
+
+example : view (analyze cfg noisy).instrView =
+    view ((analyze cfg clean).rename (fun x => if x = 3 then 11 else if x = 4 then 14 else 1500)) := by
+  decide +kernel
+
+-- the hypotheses of the theorems hold of these kernels (also with flag dependencies, other model
+-- parameters and a small floor), and the instances say what the evaluation shows
+example : Increasing clean ∧ Increasing noisy := by decide
+example : (clean.filter (·.isInstr)).map eraseNum = (noisy.filter (·.isInstr)).map eraseNum := rfl
+
+example := analysis_renumber_invariant cfg clean (noisy.filter (·.isInstr)) rfl (by decide) (by decide)
+example := analysis_renumber_invariant cfgF clean (noisy.filter (·.isInstr)) rfl (by decide) (by decide)
+example := noise_transparent cfg clean noisy (by decide) (by decide) rfl
+example := noise_transparent cfgF clean noisy (by decide) (by decide) rfl
+example : SameOnInstr 2 (analyze cfg noisy) (analyze cfg (noisy.filter (·.isInstr))) := noise_drop cfg noisy (by decide)
+example : 0 < (analyze cfg (noisy.filter (·.isInstr))).cpTotal := by decide +kernel
+
+/-- **cp_zero_quirk**: the positivity hypothesis on the critical-path marks is needed.  In a kernel whose
+    chains all have length 0 the first maximum of `chain_length` is the first LINE, instruction or
+    not: here the comment line 1 is reported as the critical path instead of instruction 2. -/
+theorem cp_zero_quirk :
+    let k := [cmt 1, ins 2 rbx rax 0 1 [1, 0], ins 3 rax rcx 0 1 [1, 0]]
+    (analyze cfg k).cpMarks = [(1, 0)] ∧ (analyze cfg (k.filter (·.isInstr))).cpMarks = [(2, 0)] ∧
+    (analyze cfg k).cpTotal = (analyze cfg (k.filter (·.isInstr))).cpTotal := by
+  decide +kernel
+
+/-! three ways: the marked x86 file of `Props.C11.Ex` (decoys in the prologue, byte-style start marker,
+    comment-style end marker, markers again in the epilogue) around a body with noise lines -/
+def wrap (l : Marker.Line) : PLine := { sel := l }
+def pro : List PLine := C11.Ex.pro.map wrap
+def sm : List PLine := C11.Ex.sm.map wrap
+def em : List PLine := C11.Ex.emC.map wrap
+def epi : List PLine := C11.Ex.epi.map wrap
+def body : List PLine := [ins 13 rbx rax 4 1 [1, 0], cmt 14, ins 15 rax rcx 1 (1/2) [1/2, 1/2], ins 16 rcx rbx 2 1 [0, 1]]
+def alone : List PLine := [ins 1 rbx rax 4 1 [1, 0], cmt 2, ins 3 rax rcx 1 (1/2) [1/2, 1/2], ins 4 rcx rbx 2 1 [0, 1]]
+
+example := three_ways_same_x86 cfg C11.Ex.isaX86 (by decide) pro sm body em epi alone (by simp [body])
+  (quietB_sound _ _ _ (by decide +kernel))
+  (.bytes _ _ (markerMovB_sound _ _ _ (by decide +kernel)) (by simp [sm, C11.Ex.sm]) (by decide +kernel)
+    (fun l hl => plainB_sound l (by revert l; decide +kernel)))
+  (quietB_sound _ _ _ (by decide +kernel)) (.comment _ rfl rfl)
+  13 16 false (by decide) (by decide) (by decide) (by decide) rfl (by decide) (quietB_sound _ _ _ (by decide +kernel))
+
+-- and the pipeline evaluated directly on the three inputs
+example : (match run cfg (.markers C11.Ex.isaX86) (pro ++ (sm ++ (body ++ (em ++ epi)))) with
+    | .ok a => some (view a) | _ => none) = some (view (analyze cfg body)) := by decide +kernel
+example : (match run cfg (.lines [49, 51, 45, 49, 54]) (pro ++ (sm ++ (body ++ (em ++ epi)))) with   -- "13-16"
+    | .ok a => some (view a) | _ => none) = some (view (analyze cfg body)) := by decide +kernel
+example : (match run cfg (.markers C11.Ex.isaX86) alone with
+    | .ok a => some (view a) | _ => none) =
+      some (view ((analyze cfg body).rename (fun x => x - 12))) := by decide +kernel
+-- outcomes other than an analysis
+example : (match run cfg (.lines [52, 48]) alone with | .emptyKernel => true | _ => false) = true := by decide +kernel
+example : (match run cfg (.lines [52, 44, 44]) alone with | .badLines => true | _ => false) = true := by decide +kernel
+example : (match run cfg (.markers [109, 105, 112, 115]) alone with | .badIsa => true | _ => false) = true := by
+  decide +kernel
+end Ex
+
 end OsacaVerif.Props.C11Pipeline
